@@ -273,7 +273,7 @@ class ConformationContainer:
                 first_group.coupled_titrating_group = min(
                     all_groups, key=lambda g: g.pka_value)
                 # group with the highest pKa is penalised
-                penalised_labels.append(first_group.label)
+                penalised_labels.append(first_group)
             # In case of bases
             else:
                 for group in all_groups:
@@ -282,7 +282,7 @@ class ConformationContainer:
                         continue
                     group.coupled_titrating_group = first_group
                     # ... and the rest are penalised
-                    penalised_labels.append(group.label)
+                    penalised_labels.append(group)
         return penalised_labels
 
     @staticmethod
